@@ -275,6 +275,21 @@ example : handleConstraint 2 [1/4, 1/8, 3, 5] (some [true, false, false, true])
     ∧ scatter [1/4, 3/4, 3, 5] [false, false, true, false] [(7 : Rat)] = [1/4, 3/4, 7, 5]
     ∧ gather [(1/4 : Rat), 3/4, 3, 5] [false, false, true, false] = [3] := by decide +kernel
 
+/-- option `initial_guess=None` (every public `DwelltimeModel` fit): the default guess has `2n` entries, its
+    amplitudes sum to one (the search starts on the simplex) and its lifetimes average to the sample mean -/
+theorem default_guess_spec (n : Nat) (hn : 1 ≤ n) (m : Rat) :
+    (defaultGuess n m).length = 2 * n
+    ∧ ((defaultGuess n m).take n).sum = 1
+    ∧ ((defaultGuess n m).drop n).sum / (n : Rat) = m :=
+  defaultGuess_spec' n hn m
+
+/-- derive → derive: `_handle_amplitude_constraint` never refuses the default guess when no parameter is fixed -/
+theorem default_guess_accepted (n : Nat) (hn : 1 ≤ n) (m : Rat) :
+    (handleConstraint n (defaultGuess n m) none).isSome = true :=
+  default_guess_accepted' n hn m
+
+example : defaultGuess 3 2 = [1/3, 1/3, 1/3, 1, 2, 3] := by decide +kernel
+
 /-! ## One component, no upper limit -/
 
 /-- core `one_component_mle`: for a one-component model without upper limit (any amplitude value, per-
@@ -488,6 +503,46 @@ theorem gradient_discrete_correct_tau (pre post : List (Comp ℝ)) (a tau0 t tmi
 
 -- non-vacuity: `Δ = 0.25`, window `0.5 − 0.25 < 10`, the `Admissible` instance above, clip and mask as before
 example : (0 : ℝ) < 0.25 ∧ (0.5 : ℝ) - 0.25 < 10 ∧ (1.0e-14 : ℝ) ≤ 0.3 ∧ (10 : ℝ) / 0.5 < 1.0e10 := by norm_num
+
+/-! ### the two hypotheses of the gradient theorems: established by the search bounds, and necessary -/
+
+/-- the code ESTABLISHES the mask hypothesis: for every lifetime inside the search interval of
+    `_exponential_mle_bounds` (`τ ≥ max(0.1·min tmin, 1e-8)`) and every upper limit `m ≤ max tmax`, the mask
+    `t_max/τ < 1e10` is inactive as soon as the limits span less than nine decades (`max tmax < 1e9 · min tmin`). -/
+theorem mask_inactive_within_bounds (minTmin maxTmax tau m : ℝ) (ha : 0 < minTmin)
+    (hspan : maxTmax < 1.0e9 * minTmin) (hm : m ≤ maxTmax)
+    (htau : (tauBounds minTmin maxTmax).1 ≤ tau) : m / tau < (1.0e10 : ℝ) := by
+  have hlo : minTmin * 0.1 ≤ (tauBounds minTmin maxTmax).1 := by
+    simp only [tauBounds, RealLike.lt, decide_eq_true_eq]
+    split
+    · rename_i h; norm_num at h ⊢; linarith
+    · norm_num
+  have ht : 0 < tau := by nlinarith
+  rw [div_lt_iff₀ ht]
+  norm_num at hspan hlo ⊢
+  nlinarith
+
+example : (0 : ℝ) < 0.5 ∧ (20 : ℝ) < 1.0e9 * 0.5 := by norm_num
+
+/-- the mask hypothesis is NECESSARY for the exactness of the lifetime derivative: when the mask is active the code
+    sets the boundary term `t_max·e^{−t_max/τ}` of the normalisation to zero although it is positive (by less than
+    `t_max·e^{−1e10}`, which is why the code can afford it) -/
+theorem mask_active_drops_boundary_term (m tau : ℝ) (hm : 0 < m) (h : (1.0e10 : ℝ) ≤ m / tau) :
+    maxBound (some m) tau = 0 ∧ 0 < specME (some m) tau := by
+  constructor
+  · simp only [maxBound, RealLike.lt, decide_eq_true_eq]
+    rw [if_neg (not_lt.2 h)]
+    norm_num
+  · simp only [specME]
+    exact mul_pos hm (Real.exp_pos _)
+
+/-- the clip hypothesis is NECESSARY as well: below `1e-14` the Jacobian is evaluated at the amplitude `1e-14`, not at the
+    amplitude it was asked about (the optimiser never goes there: its amplitude bound is `1e-9`) -/
+theorem clip_active_replaces_amplitude (a : ℝ) (h : a < (1.0e-14 : ℝ)) : clipAmp a = (1.0e-14 : ℝ) ∧ clipAmp a ≠ a := by
+  have hc : clipAmp a = (1.0e-14 : ℝ) := by
+    simp only [clipAmp, RealLike.lt, decide_eq_true_eq]
+    rw [if_pos h]
+  exact ⟨hc, by rw [hc]; exact (ne_of_lt h).symm⟩
 
 /-! ## The Jacobian handed to the optimiser is the gradient of the negative log-likelihood -/
 
